@@ -56,7 +56,7 @@ class C27(Scenario):
     ]
 
     def generate(self, rng, arm, tier, zpool):
-        cfg = {"families": {"flat": True}, "abort_p": 0.5}
+        cfg = {"families": {"flat": True}, "abort_p": 0.5, "single_pass": True, "md_degree": True}
         if arm == "long":
             cfg["n_steps"] = rng.randint(15, 40)
         if arm == "aliasing":
